@@ -7,6 +7,8 @@
 -/
 import Gojq.Model.MiniVM
 namespace Gojq.MiniVM
+variable [IterMsg]
+set_option linter.unusedSectionVars false
 
 inductive Steps (code : Code) : Cfg → Cfg → Prop where
   | refl (c) : Steps code c c
@@ -63,27 +65,46 @@ def Wr (O : Nat → Prop) (o : Nat) : Nat → Prop := fun a => O a ∨ o ≤ a
 /-- what the rest of the program must preserve between two outputs -/
 def Keep (O : Nat → Prop) (o o1 : Nat) : Nat → Prop := fun a => O a ∨ (o ≤ a ∧ a < o1)
 
-def ForkOK (code : Code) (f : Fork) : Prop :=
-  (∃ t, code[f.pc]? = some (.fork t)) ∨ code[f.pc]? = some .iter
-
-def ForksOK (code : Code) (F : List Fork) : Prop := ∀ f ∈ F, ForkOK code f
-
-theorem ForksOK.nil {code} : ForksOK code [] := by intro f hf; cases hf
+/-- the forks a segment leaves pending: ordinary `fork` / `iter` forks and, properly nested,
+    pairs `forktryend … forktrybegin` (the fork pushed after an output of a `try` body, the forks
+    of the body, the fork of the `try` itself) -/
+inductive ForksOK (code : Code) : List Fork → Prop where
+  | nil : ForksOK code []
+  | plain {f F} : ((∃ t, code[f.pc]? = some (.fork t)) ∨ code[f.pc]? = some .iter) → ForksOK code F →
+      ForksOK code (f :: F)
+  | tri {fe M fb F t} : code[fe.pc]? = some .forktryend → ForksOK code M →
+      code[fb.pc]? = some (.forktrybegin t) → ForksOK code F → ForksOK code (fe :: (M ++ fb :: F))
 
 theorem ForksOK.append {code A B} (ha : ForksOK code A) (hb : ForksOK code B) : ForksOK code (A ++ B) := by
-  intro f hf; rcases List.mem_append.mp hf with h | h
-  · exact ha f h
-  · exact hb f h
+  induction ha with
+  | nil => exact hb
+  | plain h _ ih => exact .plain h ih
+  | tri h1 hM h2 _ _ ih =>
+    have := ForksOK.tri h1 hM h2 ih
+    simpa [List.append_assoc] using this
 
-theorem err_through {code} : ∀ {F'} (_ : ForksOK code F') (F e R),
-    Steps code (.fail (F' ++ F) (some e) R) (.fail F (some e) R)
-  | [], _, F, e, R => .refl _
-  | f :: fs, h, F, e, R => by
-    have hf := h f (by simp)
-    have hfs : ForksOK code fs := fun g hg => h g (by simp [hg])
-    refine .head (c' := .run f.pc f.stack (fs ++ F) true (some e) R f.frames f.off 0) (by simp [step]) ?_
-    refine .head (c' := .fail (fs ++ F) (some e) R) ?_ (err_through hfs F e R)
+/-- an error — wrapped or not — raised while these forks are pending unwinds through all of them
+    unchanged: `fork` / `iter` break the loop again, a `forktryend` wraps it and the matching
+    `forktrybegin` unwraps it instead of catching it -/
+theorem err_through {code} {F'} (h : ForksOK code F') : ∀ (F : List Fork) (x : VErr) (R : Regs),
+    Steps code (.fail (F' ++ F) (some x) R) (.fail F (some x) R) := by
+  induction h with
+  | nil => intro F x R; exact .refl _
+  | @plain f F1 hf _ ih =>
+    intro F x R
+    refine .head (c' := .run f.pc f.stack (F1 ++ F) true (some x) R f.frames f.off 0) (by simp [step]) ?_
+    refine .head (c' := .fail (F1 ++ F) (some x) R) ?_ (ih F x R)
     rcases hf with ⟨t, ht⟩ | ht <;> simp [step, ht]
+  | @tri fe M fb F1 t h1 _ h2 _ ihM ihF =>
+    intro F x R
+    have e1 : (fe :: (M ++ fb :: F1)) ++ F = fe :: (M ++ (fb :: (F1 ++ F))) := by simp
+    rw [e1]
+    refine .head (c' := .run fe.pc fe.stack (M ++ (fb :: (F1 ++ F))) true (some x) R fe.frames fe.off 0) (by simp [step]) ?_
+    refine .head (c' := .fail (M ++ (fb :: (F1 ++ F))) (some (.tryEnd x)) R) (by simp [step, h1]) ?_
+    refine (ihM (fb :: (F1 ++ F)) (.tryEnd x) R).trans ?_
+    refine .head (c' := .run fb.pc fb.stack (F1 ++ F) true (some (.tryEnd x)) R fb.frames fb.off 0) (by simp [step]) ?_
+    refine .head (c' := .fail (F1 ++ F) (some x) R) (by simp [step, h2]) ?_
+    exact ihF F x R
 
 /-- what the rest of the program must preserve between two outputs: the static registers `O`, the
     read-only registers `P` (parameter slots of the live frames), the frames allocated so far -/
@@ -94,7 +115,7 @@ def KeepP (O P : Nat → Prop) (o o1 : Nat) : Nat → Prop := Keep (fun a => O a
     entry; `fr`: frames at entry, restored at every exit. -/
 inductive Yields (code : Code) (O P : Nat → Prop) (o : Nat) (fr : List Frame) (F : List Fork) (p' : Nat)
     (S : List SV) : Cfg → List V → Option Err → Prop where
-  | done {c e R'} : Steps code c (.fail F e R') → EqOff (Wr O o) c.regs R' → Yields code O P o fr F p' S c [] e
+  | done {c e R'} : Steps code c (.fail F (e.map .plain) R') → EqOff (Wr O o) c.regs R' → Yields code O P o fr F p' S c [] e
   | out {c w ws e F' R1 o1 cp} :
       ForksOK code F' →
       Steps code c (.run p' (.v w :: S) (F' ++ F) false none R1 fr o1 cp) →
@@ -144,7 +165,7 @@ theorem Yields.rebase_aux {code O1 P1 o1 fr G p' S c out1 e1}
     (∀ a, K a → O a ∨ P a ∨ (o ≤ a ∧ a < o1)) → (∀ a, K a → ¬ Wr O1 o1 a) →
     (F' = [] → e1 = none → out2 = [] ∧ e = none) →
     EqOn K Rref c.regs →
-    (∀ R', EqOn K Rref R' → Yields code O P o fr F p' S (.fail (F' ++ F) e1 R') out2 e) →
+    (∀ R', EqOn K Rref R' → Yields code O P o fr F p' S (.fail (F' ++ F) (e1.map .plain) R') out2 e) →
     Yields code O P o fr F p' S c (out1 ++ out2) e := by
   induction y1 with
   | @done c e R' hs hf =>
@@ -200,7 +221,7 @@ theorem Yields.rebase {code} {O1 P1 O P K : Nat → Prop} {o1 o fr F F' p' S c o
     (hO : ∀ a, O1 a → O a ∨ (o ≤ a ∧ a < o1)) (hP : ∀ a, P1 a → O a ∨ P a ∨ (o ≤ a ∧ a < o1)) (ho : o ≤ o1)
     (hk : ∀ a, K a → O a ∨ P a ∨ (o ≤ a ∧ a < o1)) (hd : ∀ a, K a → ¬ Wr O1 o1 a)
     (hnil : F' = [] → e1 = none → out2 = [] ∧ e = none)
-    (y2 : ∀ R', EqOn K c.regs R' → Yields code O P o fr F p' S (.fail (F' ++ F) e1 R') out2 e) :
+    (y2 : ∀ R', EqOn K c.regs R' → Yields code O P o fr F p' S (.fail (F' ++ F) (e1.map .plain) R') out2 e) :
     Yields code O P o fr F p' S c (out1 ++ out2) e :=
   Yields.rebase_aux y1 rfl hF' hO hP ho hk hd hnil EqOn.refl y2
 
@@ -210,7 +231,7 @@ theorem Yields.rebase_err {code} {O1 P1 O P : Nat → Prop} {o1 o fr F F' p' S c
     Yields code O P o fr F p' S c out1 (some e) := by
   have := Yields.rebase (K := fun _ => False) (O := O) (P := P) y1 hF' hO hP ho (fun _ h => h.elim) (fun _ h => h.elim)
     (fun _ h => by cases h)
-    (fun R' _ => .done (err_through hF' F e R') EqOff.refl)
+    (fun R' _ => .done (e := some e) (err_through hF' F (.plain e) R') EqOff.refl)
   simpa using this
 
 theorem Yields.exit_steps {code O P o fr F p1 p2 S c outs e}
